@@ -9,14 +9,14 @@ E1  TLC-emitted queue shapes over {tiny, signature-heavy} concretized with real 
     wrapper, challenge messages) and to the real QUIC transport (loopback pair); framing round trips at
     boundary sizes; raw oversized headers.
 E2  recorded events judged by TLC against Trace_Transport (conformance + monitor, then monitor).
-Quick tier: signature-heavy class calibrated small (no real batch can reach 32 MiB in the time budget);
-thorough tier: additionally the smallest real over-limit instance of the E3 counterexample shape."""
+Quick tier: signature-heavy class calibrated small (no real queue can reach the batcher's threshold in the
+time budget); thorough tier: additionally a real queue of 9 envelopes of ~4 MiB, which the batcher must cut
+(a batcher that accounts less than the signed length admits all 9 and the bundle exceeds 32 MiB)."""
 import json, os, random, re
 
 PROPS = ["C31"]
 from vlib import read_ndjson, Infra
 
-KNOWN_ID = "C31-1"
 TINY = {"inputs": 1, "sigs": 1, "extra": 8}
 
 
@@ -47,20 +47,20 @@ def run(ctx, args):
             seen.add(k)
             uniq.append(s)
     shapes = uniq
-    fits = [s for s in shapes if not s["over"]]
-    over = sorted([s for s in shapes if s["over"]], key=lambda s: (s["n"], s["shape"].count("h")))
+    fits = [s for s in shapes if not s["cut"]]
+    over = sorted([s for s in shapes if s["cut"]], key=lambda s: (-s["n"], -s["shape"].count("h")))
     # ---- E1 (kernel): the real batcher
     cases = []
     heavy_small = {"inputs": 4, "sigs": 16, "extra": 0} if quick else {"inputs": 16, "sigs": 64, "extra": 0}
     for s in rng.sample(fits, min(len(fits), 24 if quick else 60)):
         cases.append({"name": "".join(s["shape"]), "txs": concretize(s["shape"], heavy_small)})
-    # over-limit shapes of the scaled model at the calibrated small scale (they fit in reality: the
+    # shapes the scaled batcher cuts, at the calibrated small scale (in reality nothing is cut: the
     # batcher must admit all of them)
     for s in over[:2]:
         cases.append({"name": "".join(s["shape"]) + "-scaled", "txs": concretize(s["shape"], heavy_small)})
     if not quick:
-        # the E3 counterexample at REAL scale: signature-heavy = 256 inputs x 247 signatures (envelope just
-        # under the 4 MiB cap, payload ~ 9 KiB); the cheapest over-limit shape has 9 of them
+        # REAL scale: signature-heavy = 256 inputs x 247 signatures (envelope just under the 4 MiB cap,
+        # payload ~ 10 KiB); 9 of them = 37.7 MB of envelopes: the batcher must stop at 5 (< 2/3 of 32 MiB)
         huge = {"inputs": 256, "sigs": 247, "extra": 0}
         s = over[0]
         cases.append({"name": "".join(s["shape"]) + "-real", "txs": concretize(s["shape"], huge)})
@@ -114,48 +114,34 @@ def run(ctx, args):
                 "transactions), the real p2p message builders applied to every admitted batch, and the real QUIC framing; "
                 "distinct = distinct events ignoring timings")
     ctx.samples = [{k: e[k] for k in ("case", "payload", "signed", "batch")} for e in nb[:2]]
-    known = [k for k in ctx.known() if k.get("id") == KNOWN_ID]
-    if known:
-        os.environ["VERIF_KNOWN_C31_1"] = "1"
-    else:
-        os.environ.pop("VERIF_KNOWN_C31_1", None)
-    validate(ctx, d, trace, events, known)
+    validate(ctx, d, trace, events)
     ctx.assumptions += [
         "the batch is observed as the self snapshot the batcher appends to its chain's cache pool (the node is made to "
         "believe its peers are in step); the peer path sends the same batch through SendTransactionsMessage",
-        "quick tier: the signature-heavy class is calibrated small (4 inputs x 16 signatures), no real batch can approach "
-        "32 MiB within the time budget; the real over-limit instance (9 envelopes of ~4 MiB, ~5.7e5 signatures) runs in the thorough tier",
+        "quick tier: the signature-heavy class is calibrated small (4 inputs x 16 signatures); a real queue that reaches the "
+        "batcher's threshold needs >= 3.4e5 signatures, so a batcher that accounts too little (e.g. the unsigned payload) is "
+        "detected by the THOROUGH tier only (9 envelopes of ~4 MiB, ~5.7e5 signatures)",
         "transactions of one batch spend the same funded outputs (the batcher validates, it does not lock inputs)",
         "allocation before the size check is detected through runtime.MemStats.TotalAlloc around the real Receive",
     ]
 
 
-def validate(ctx, d, trace, events, known):
-    def note_known(out):
-        ls = sorted({int(m) for m in re.findall(r'"KNOWN-REACHED", "C31-1", (\d+)', out)})
-        if ls and known:
-            e = events[ls[0] - 1]
-            ctx.known_reached.append("%s: %s [reached in %d recorded builder calls, first: %s of %d envelopes, result %s, length %s]"
-                                     % (KNOWN_ID, known[0].get("text", ""), len(ls), e.get("kind"), e.get("n", 0), e.get("res"), e.get("len")))
-
+def validate(ctx, d, trace, events):
     r = ctx.tlc_trace(d, "Trace_Transport.tla", "Trace_Transport_full.cfg", trace, timeout=1800, xss=True)
     if r["accepted"]:
         ctx.traces = len(events)
-        note_known(r["out"])
         ctx.log("E2 full conformance + monitor: %d recorded events accepted" % len(events))
         return
     ctx.log("E2 full pass rejected at line %s; running the property monitor alone" % r["line"])
     r2 = ctx.tlc_trace(d, "Trace_Transport.tla", "Trace_Transport_C31.cfg", trace, timeout=1800, xss=True)
     if r2["accepted"]:
         ctx.traces = len(events)
-        note_known(r2["out"])
         ev = events[r["line"] - 1] if r["line"] and r["line"] <= len(events) else None
         ctx.mismatches.append({"line": r["line"], "event": {k: v for k, v in (ev or {}).items() if k not in ("signed", "payload")}})
         ctx.notes.append("conformance mismatch not forbidden by this property (see conformance_mismatches)")
         return
     line = r2["line"] or 1
     ctx.traces = line - 1
-    note_known(r2["out"])
     ev = events[line - 1] if line <= len(events) else {}
     short = {k: v for k, v in ev.items() if k not in ("signed", "payload")}
     ctx.violation("a message built by the real code does not fit the transport maximum, or framing does not round-trip / "
